@@ -167,9 +167,12 @@ func runEP(ep, name string, content []byte) result {
 		return errResult(err)
 	case "parsewa":
 		_, err := parser.ParseFile(nil, token.NewFileSet(), "c08.wa", content, parser.AllErrors|parser.ParseComments)
+		// second pass with the parser's own declaration checks (labels, redeclarations) switched on
+		parser.ParseFile(nil, token.NewFileSet(), "c08.wa", content, parser.AllErrors|parser.ParseComments|parser.DeclarationErrors)
 		return errResult(err)
 	case "parsewz":
 		_, err := parser.ParseFile(nil, token.NewFileSet(), "c08.wz", content, parser.AllErrors|parser.ParseComments)
+		parser.ParseFile(nil, token.NewFileSet(), "c08.wz", content, parser.AllErrors|parser.ParseComments|parser.DeclarationErrors)
 		return errResult(err)
 	case "loadwa":
 		_, err := api.LoadProgramFile(api.DefaultConfig(), "c08.wa", content)
@@ -572,6 +575,55 @@ func observedFormat(name string, code []byte) string {
 	return s
 }
 
+// errs: stdin lines "<wa|wz> <contenthex>" -> every error message of the parse (not only the first) and the
+// kinds of Bad* nodes in the partial AST; used to measure which error paths of the parsers the generated
+// inputs reach.  Output: "<ok|err|panic> <n Bad nodes as S:n,E:n,D:n> <messages joined by \x1f, spaces as \x1e>".
+func errs() {
+	vh.Loop(func(f []string, line string) string {
+		if len(f) != 2 {
+			return "bad-op"
+		}
+		name := "c08.wa"
+		if f[0] == "wz" {
+			name = "c08.wz"
+		}
+		code := vh.UnHex(f[1])
+		if code == nil {
+			code = []byte{}
+		}
+		file, err := parser.ParseFile(nil, token.NewFileSet(), name, code, parser.AllErrors|parser.ParseComments|parser.DeclarationErrors)
+		var bs, be, bd int
+		if file != nil {
+			ast.Inspect(file, func(n ast.Node) bool {
+				switch n.(type) {
+				case *ast.BadStmt:
+					bs++
+				case *ast.BadExpr:
+					be++
+				case *ast.BadDecl:
+					bd++
+				}
+				return true
+			})
+		}
+		var msgs []string
+		if el, ok := err.(scanner.ErrorList); ok {
+			for _, e := range el {
+				msgs = append(msgs, e.Msg)
+			}
+		} else if err != nil {
+			msgs = append(msgs, err.Error())
+		}
+		out := strings.Join(msgs, "\x1f")
+		out = strings.NewReplacer(" ", "\x1e", "\n", "\x1e", "\r", "\x1e", "\t", "\x1e").Replace(out)
+		st := "ok"
+		if err != nil {
+			st = "err"
+		}
+		return fmt.Sprintf("%s S:%d,E:%d,D:%d %s", st, bs, be, bd, out)
+	})
+}
+
 func classify() {
 	vh.Loop(func(f []string, line string) string {
 		if len(f) != 2 {
@@ -614,6 +666,8 @@ func main() {
 		runBatch(*in, *out, *start, *skip, sc)
 	case "classify":
 		classify()
+	case "errs":
+		errs()
 	default:
 		fmt.Fprintln(os.Stderr, "usage: c08 run|classify ...")
 		os.Exit(4)
